@@ -723,8 +723,12 @@ func OpenWith(path string, vLogs []appendable.Appendable, txLog, cLog appendable
 		return &b
 	}
 
-	if store.aht.Size() > precommittedTxID {
-		err = store.aht.ResetSize(precommittedTxID)
+	// The leaves of the binary-linking tree beyond the committed transactions are not trusted:
+	// they may belong to precommitted transactions that were discarded (DiscardPrecommittedTxsSince)
+	// and replaced before the store was closed, while the tx-log scan above reloads the original ones.
+	// They are rebuilt below (syncBinaryLinking) from the transactions that were actually reloaded.
+	if store.aht.Size() > committedTxID {
+		err = store.aht.ResetSize(committedTxID)
 		if err != nil {
 			store.Close()
 			return nil, fmt.Errorf("corrupted commit-log: can not truncate aht tree: %w", err)
